@@ -95,14 +95,14 @@ class C20(Prop):
                   'cancellation of the helper\'s caller at any moment, all semaphore sizes, any number of tasks): running bodies + free '
                   'permits equal a budget determined by the helper state (permit accounting), hence at most n bodies run at once under '
                   'bounded_gather2 / OnlineBoundedGather2 called by a permit holder and under bounded_gather(parallelism=n) — always for '
-                  'return_exceptions and cancel_on_error=True, for cancel_on_error=False until the helper raises (open finding F4) and for '
-                  'the online pool unless its exit is cancelled (open finding F5); both exceptions are refuted on their witnesses; a '
+                  'return_exceptions, cancel_on_error=True and the online pool, and for cancel_on_error=False until the helper raises (open '
+                  'finding F4, refuted on its witness); a '
                   'returned list is the scripted outcomes in submission order; a helper that raised, raised the first exception in '
                   'schedule order it gets to see (task failure, cancelled child, body exception, cancellation of the caller; '
                   'return_exceptions raises only the latter); after a normal return, after ANY raise of cancel_on_error=True or of '
-                  'return_exceptions (also by cancellation) and after the online pool returned or shut down, every task is finished and '
-                  'none was pending at that instant; "no task pending when the pool is left" is refuted for a caller cancelled inside '
-                  '__aexit__ (F5). The three repaired defects (b83b6cc09, 2f78d4573, 426463a22) are kept as a pre-repair model variant '
+                  'return_exceptions (also by cancellation) and after the online pool was left in any way (also by a cancellation inside '
+                  '__aexit__), every task is finished and none was pending at that instant. The four repaired defects (b83b6cc09, '
+                  '2f78d4573, 426463a22, 316170afa) are kept as a pre-repair model variant '
                   'refuted on their witnesses. The model is tied to the real helpers by comparing (task states, sema._value, helper '
                   'result, tasks unfinished at return, peak concurrency) after every step of random and exhaustive small schedules.')
     level_note = ('partial: asyncio.gather / wait / shield / Semaphore / Event / Task.cancel are modelled from their documented behaviour '
@@ -111,8 +111,8 @@ class C20(Prop):
                   'correspondence with CPython 3.12 on <= 5 tasks x outcome patterns x semaphore sizes 1..3 x cancellation points is what '
                   'validates that. In the model a cancelled body ends in the step that cancels it; bodies whose clean-up takes several '
                   'loop iterations are exercised on the real code only (extra checks: the clean-up clauses of the property, no model). '
-                  'Two genuine defects are open (F4 permit not re-acquired on error; F5 pool exit cancelled while waiting abandons the '
-                  'tasks); three others found by this check were repaired.')
+                  'One genuine defect is open (F4: the permit WithoutSemaphore does not re-acquire on error); four others found by this '
+                  'check were repaired.')
     budget = {'quick': 2500, 'thorough': 30000}
     search_budget = {'quick': 3000, 'thorough': 30000}
     rule = ('case = (helper flavour rx|rf|rc|on, entry hold = caller holds one permit of Semaphore(n) | bg = bounded_gather(parallelism=n), '
